@@ -72,6 +72,11 @@ def run(v):
                     "c09_mc_keep", workers=4, timeout=900, coverage=False)
     if rk.violated != "LastWordUnlessOverlapped":
         raise common.ToolError("MC_LspServer: the keep-linters deviation is not refuted (vacuous invariant)")
+    # the code before repair 06e6ed9 (the record of merged identifiers survives the replacement of the dictionary)
+    ri = common.tlc(os.path.join(SPEC, "mc", "MC_LspServer.tla"), os.path.join(SPEC, "mc", "MC_LspServer_dev_identrecord.cfg"),
+                    "c09_mc_ident", workers=4, timeout=900, coverage=False)
+    if ri.violated != "LastWordUnlessOverlapped":
+        raise common.ToolError("MC_LspServer: the identifier-record deviation is not refuted (vacuous invariant)")
     # liveness: the server always comes to rest (weak fairness of handler steps, no state constraint)
     rl = common.tlc(os.path.join(SPEC, "mc", "MC_LspServer.tla"), os.path.join(SPEC, "mc", "MC_LspServer_live.cfg"),
                     "c09_mc_live", workers=8, timeout=1800, coverage=False)
